@@ -383,6 +383,11 @@ impl<'tcx> Cx<'tcx> {
                         o.push(("closure", s(self.path(*did))));
                     }
                     _ => {
+                        if let mir::Const::Unevaluated(uv, _) = c.const_ {
+                            if let Some(pi) = uv.promoted {
+                                o.push(("promoted", V::I(pi.as_u32() as i128)));
+                            }
+                        }
                         let env = ty::TypingEnv::post_analysis(tcx, owner.to_def_id());
                         if cty.is_integral() || cty.is_bool() || cty.is_char() {
                             if let Some(si) = c.const_.try_eval_scalar_int(tcx, env) {
@@ -490,81 +495,8 @@ impl<'tcx> Cx<'tcx> {
         }
     }
 
-    fn body(&self, did: LocalDefId) -> Option<V> {
+    fn blocks_of(&self, did: LocalDefId, body: &Body<'tcx>) -> V {
         let tcx = self.tcx;
-        let kind = tcx.def_kind(did);
-        let kind_s = match kind {
-            DefKind::Fn => "fn",
-            DefKind::AssocFn => "assoc_fn",
-            DefKind::Closure => "closure",
-            _ => return None,
-        };
-        let body: &Body<'tcx> = tcx.optimized_mir(did.to_def_id());
-        let mut o: Vec<(&'static str, V)> = Vec::new();
-        o.push(("path", s(self.path(did.to_def_id()))));
-        o.push(("kind", s(kind_s)));
-        o.push(("span", self.span(body.span)));
-        {
-            let sm = tcx.sess.source_map();
-            let hi = sm.lookup_char_pos(body.span.hi());
-            o.push(("line_hi", V::I(hi.line as i128)));
-        }
-        // impl context
-        let mut parent = tcx.local_parent(did);
-        // walk up closures
-        let mut fn_parent: Option<LocalDefId> = None;
-        if kind == DefKind::Closure {
-            let mut p = parent;
-            loop {
-                match tcx.def_kind(p) {
-                    DefKind::Closure => p = tcx.local_parent(p),
-                    _ => break,
-                }
-            }
-            fn_parent = Some(p);
-            o.push(("closure_of", s(self.path(p.to_def_id()))));
-            parent = tcx.local_parent(p);
-        }
-        let _ = fn_parent;
-        if let DefKind::Impl { of_trait } = tcx.def_kind(parent) {
-            let st = tcx.type_of(parent).instantiate_identity().skip_norm_wip();
-            o.push(("impl_self", s(self.ty_str(st))));
-            if of_trait {
-                let tr = tcx.impl_trait_ref(parent).instantiate_identity().skip_norm_wip();
-                o.push(("impl_trait", s(self.fix(ty::print::with_crate_prefix!(ty::print::with_no_trimmed_paths!(format!("{}", tr.print_only_trait_path())))))));
-            }
-        }
-        o.push(("arg_count", V::I(body.arg_count as i128)));
-        // locals
-        let mut names: Vec<Option<String>> = vec![None; body.local_decls.len()];
-        let mut upvars: Vec<V> = Vec::new();
-        for vdi in body.var_debug_info.iter() {
-            if let mir::VarDebugInfoContents::Place(p) = &vdi.value {
-                if p.projection.is_empty() {
-                    if names[p.local.as_usize()].is_none() {
-                        names[p.local.as_usize()] = Some(vdi.name.to_string());
-                    }
-                } else {
-                    upvars.push(V::O(vec![("name", s(vdi.name.to_string())), ("p", self.place(body, p))]));
-                }
-            }
-        }
-        let mut locals: Vec<V> = Vec::new();
-        for (l, decl) in body.local_decls.iter_enumerated() {
-            let t = decl.ty;
-            locals.push(V::O(vec![
-                ("t", s(self.ty_str(t))),
-                ("n", match &names[l.as_usize()] {
-                    Some(n) => s(n.clone()),
-                    None => V::Null,
-                }),
-                ("cm", V::B(self.carries(t))),
-                ("mr", V::B(self.is_msg_ref(t))),
-            ]));
-        }
-        o.push(("locals", V::A(locals)));
-        o.push(("upvars", V::A(upvars)));
-        // blocks
         let mut blocks: Vec<V> = Vec::new();
         for (_bb, data) in body.basic_blocks.iter_enumerated() {
             let mut stmts: Vec<V> = Vec::new();
@@ -677,7 +609,94 @@ impl<'tcx> Cx<'tcx> {
                 ("sp", tsp),
             ]));
         }
-        o.push(("blocks", V::A(blocks)));
+        V::A(blocks)
+    }
+
+    fn body(&self, did: LocalDefId) -> Option<V> {
+        let tcx = self.tcx;
+        let kind = tcx.def_kind(did);
+        let kind_s = match kind {
+            DefKind::Fn => "fn",
+            DefKind::AssocFn => "assoc_fn",
+            DefKind::Closure => "closure",
+            _ => return None,
+        };
+        let body: &Body<'tcx> = tcx.optimized_mir(did.to_def_id());
+        let mut o: Vec<(&'static str, V)> = Vec::new();
+        o.push(("path", s(self.path(did.to_def_id()))));
+        o.push(("kind", s(kind_s)));
+        o.push(("span", self.span(body.span)));
+        {
+            let sm = tcx.sess.source_map();
+            let hi = sm.lookup_char_pos(body.span.hi());
+            o.push(("line_hi", V::I(hi.line as i128)));
+        }
+        // impl context
+        let mut parent = tcx.local_parent(did);
+        // walk up closures
+        let mut fn_parent: Option<LocalDefId> = None;
+        if kind == DefKind::Closure {
+            let mut p = parent;
+            loop {
+                match tcx.def_kind(p) {
+                    DefKind::Closure => p = tcx.local_parent(p),
+                    _ => break,
+                }
+            }
+            fn_parent = Some(p);
+            o.push(("closure_of", s(self.path(p.to_def_id()))));
+            parent = tcx.local_parent(p);
+        }
+        let _ = fn_parent;
+        if let DefKind::Impl { of_trait } = tcx.def_kind(parent) {
+            let st = tcx.type_of(parent).instantiate_identity().skip_norm_wip();
+            o.push(("impl_self", s(self.ty_str(st))));
+            if of_trait {
+                let tr = tcx.impl_trait_ref(parent).instantiate_identity().skip_norm_wip();
+                o.push(("impl_trait", s(self.fix(ty::print::with_crate_prefix!(ty::print::with_no_trimmed_paths!(format!("{}", tr.print_only_trait_path())))))));
+            }
+        }
+        o.push(("arg_count", V::I(body.arg_count as i128)));
+        // locals
+        let mut names: Vec<Option<String>> = vec![None; body.local_decls.len()];
+        let mut upvars: Vec<V> = Vec::new();
+        for vdi in body.var_debug_info.iter() {
+            if let mir::VarDebugInfoContents::Place(p) = &vdi.value {
+                if p.projection.is_empty() {
+                    if names[p.local.as_usize()].is_none() {
+                        names[p.local.as_usize()] = Some(vdi.name.to_string());
+                    }
+                } else {
+                    upvars.push(V::O(vec![("name", s(vdi.name.to_string())), ("p", self.place(body, p))]));
+                }
+            }
+        }
+        let mut locals: Vec<V> = Vec::new();
+        for (l, decl) in body.local_decls.iter_enumerated() {
+            let t = decl.ty;
+            locals.push(V::O(vec![
+                ("t", s(self.ty_str(t))),
+                ("n", match &names[l.as_usize()] {
+                    Some(n) => s(n.clone()),
+                    None => V::Null,
+                }),
+                ("cm", V::B(self.carries(t))),
+                ("mr", V::B(self.is_msg_ref(t))),
+            ]));
+        }
+        o.push(("locals", V::A(locals)));
+        o.push(("upvars", V::A(upvars)));
+        o.push(("blocks", self.blocks_of(did, body)));
+        // promoted constants (e.g. `&FilterKind::Positive`)
+        let mut proms: Vec<V> = Vec::new();
+        for pb in tcx.promoted_mir(did.to_def_id()).iter() {
+            let mut pl: Vec<V> = Vec::new();
+            for decl in pb.local_decls.iter() {
+                pl.push(V::O(vec![("t", s(self.ty_str(decl.ty))), ("n", V::Null), ("cm", V::B(false)), ("mr", V::B(false))]));
+            }
+            proms.push(V::O(vec![("locals", V::A(pl)), ("blocks", self.blocks_of(did, pb))]));
+        }
+        o.push(("promoted", V::A(proms)));
         Some(V::O(o))
     }
 }
